@@ -20,7 +20,8 @@ CHUNK = 2
 BATCH = 150
 RULE = ("one farm run = a batch of %d generated cases (1-5 named streams with "
         "original seeds, a seed table covering some of the streams, a replication "
-        "number, updater in {SimpleStreamUpdater, StreamSeedUpdater}); every batch "
+        "number, updater in {SimpleStreamUpdater, StreamSeedUpdater}, the table given "
+        "as dict / defaultdict(list) / dict with __missing__ / OrderedDict); every batch "
         "is evaluated in 6 child interpreters started with different "
         "PYTHONHASHSEED values (0, 1, 4242, two drawn from the seed, 'random') and "
         "in each with the stream dict listed forwards and backwards; seed() and the "
